@@ -290,6 +290,13 @@ func (e *Exec) fireNextEvent() bool {
 	}
 	i := e.chooseAmong(conds)
 	ev := env.events[i]
+	// ties between events are legal (both orders are explored), but a model WITH a tie cannot be
+	// replayed deterministically: remember the strict orderings as preferences for model selection
+	for j, o := range env.events {
+		if j != i {
+			e.strictPrefs = append(e.strictPrefs, tb.Slt(ev.at, o.at))
+		}
+	}
 	env.events = append(append([]*Event(nil), env.events[:i]...), env.events[i+1:]...)
 	env.now = tb.Ite(tb.Slt(env.now, ev.at), ev.at, env.now)
 	ev.fire()
